@@ -416,6 +416,14 @@ def _validate_once(spec, cfg, path, timeout, env=None, dfs=False):
     e.update(env or {})
     r = tlc(spec, cfg, env=e, workers=1, timeout=timeout, dfs=dfs)
     m = re.search(r'<<"FURTHEST", (\d+), (\d+)>>', r.out)
+    if not m and "The behavior up to this point is" in r.out and re.search(
+            r"Error: (Overflow when computing|Attempted to|The error occurred when TLC was evaluating)", r.out):
+        # TLC could not even evaluate the spec on this record (e.g. a logged value so wild that 32-bit arithmetic overflows):
+        # the record is not explained by the specification - a rejection at the line being consumed, not a tooling failure
+        ls = re.findall(r"\bl = (\d+)", r.out)
+        if ls:
+            n = sum(1 for _ in open(path))
+            return r, int(ls[-1]), n, []
     if r.infra_failure and not m:
         raise InfraError("TLC failed validating %s (rc=%s):\n%s" % (path, r.rc, r.out[-3000:]))
     if not m:
